@@ -748,6 +748,15 @@ fn export<'tcx>(tcx: TyCtxt<'tcx>) -> String {
             let out = ex.ty(sig.output());
             o = o.arr("sig_in", ins).n("sig_out", out as i128);
             o = o.b("is_async", tcx.asyncness(did).is_async());
+            // the where-clauses / bounds of the function (what a generic parameter is known to be)
+            let preds: Vec<String> = tcx
+                .predicates_of(did)
+                .instantiate_identity(tcx)
+                .predicates
+                .iter()
+                .map(|p| esc(&format!("{:?}", p.as_ref().skip_norm_wip())))
+                .collect();
+            o = o.arr("preds", preds);
         }
         let mut bx = BodyEx { ex: &mut ex, tr, owner };
         let params: Vec<String> = body.params.iter().map(|p| bx.pat(p.pat)).collect();
@@ -772,6 +781,8 @@ fn export<'tcx>(tcx: TyCtxt<'tcx>) -> String {
             let items: Vec<String> = tcx
                 .associated_items(did)
                 .in_definition_order()
+                // (the synthesized associated types of `async fn` / `impl Trait` in traits have no name)
+                .filter(|it| !it.is_impl_trait_in_trait())
                 .map(|it| Obj::new("item").s("name", it.name().as_str()).s("p", &ex.qpath(it.def_id)).end())
                 .collect();
             let (pos, mx) = ex.span(tcx.def_span(did));
